@@ -151,7 +151,7 @@ class SymInt:
         return hash(self.__index__())
 
     def __index__(self):
-        return core.EX.int_value(self.e, 0, 64)
+        return core.EX.int_value(self.e, 0, 1023)
 
     def __int__(self):
         return self.__index__()
